@@ -228,3 +228,37 @@ def read_mol2_atoms(p, x1, y1, z1, x2, q2, dup):
     with open(p) as g:
         mol.parse_atoms(g)
     return mol
+
+
+# the BOND block: every bond line links exactly the two atoms it names (by their position in the ATOM block), both ways,
+# with the bond type it spells; the formal charges that follow are computed from these bond orders
+@_harness("C16", params={"p": _TmpPath(), "t": _Enum("1", "2", "ar")}, requires=["p != ''"],
+          ensures=[
+              "len(result.bonds) == 2 and len(result.atoms) == 3",
+              "result.bonds[0].type == ('single' if t == '1' else ('double' if t == '2' else 'aromatic')) and result.bonds[1].type == 'single'",
+              "result.bonds[0].atoms[0] is result.atoms['C1'] and result.bonds[0].atoms[1] is result.atoms['O1']",
+              "result.bonds[1].atoms[0] is result.atoms['C1'] and result.bonds[1].atoms[1] is result.atoms['H1']",
+              # both ways, once
+              "len(result.atoms['C1'].bonded_atoms) == 2 and len(result.atoms['O1'].bonded_atoms) == 1 and len(result.atoms['H1'].bonded_atoms) == 1",
+              "result.atoms['O1'].bonded_atoms[0] is result.atoms['C1'] and result.atoms['C1'].bonded_atoms[0] is result.atoms['O1']",
+              "result.atoms['C1'].bonded_atom_names[1] == 'H1' and result.atoms['H1'].bonds[0] is result.bonds[1]",
+          ],
+          trace={"pdb2pqr.ligand.mol2:Mol2Molecule.set_torsions": None, "pdb2pqr.ligand.mol2:Mol2Molecule.set_rings": None},
+          name="Mol2Molecule.parse_bonds", native=False)
+def read_mol2_bonds(p, t):
+    with open(p, "w") as f:
+        f.write("@<TRIPOS>ATOM\n")
+        f.write("      1 C1   0.0000 0.0000 0.0000 C.2     1  LIG1  0.1000\n")
+        f.write("      2 O1   1.2000 0.0000 0.0000 O.2     1  LIG1 -0.3000\n")
+        f.write("      3 H1  -0.6000 0.9000 0.0000 H       1  LIG1  0.1000\n")
+        f.write("@<TRIPOS>BOND\n")
+        f.write("     1     1     2    " + t + "\n")
+        f.write("\n")
+        f.write("     2     1     3    1\n")
+        f.write("@<TRIPOS>SUBSTRUCTURE\n")
+        f.write("     1 LIG1        1 TEMP              0 ****  ****    0 ROOT\n")
+    mol = Mol2Molecule()
+    with open(p) as g:
+        mol.parse_atoms(g)
+        mol.parse_bonds(g)
+    return mol
